@@ -29,6 +29,10 @@ CLAIMED = {
             "deterministic simulation: seeded push/reset/load/crash/IO-error histories on a fault-injecting node store, checked step by step against an RFC 6962 leaf-vector model",
             "Seeded search over operation/fault histories on the real storage-backed, in-memory and calculator trees; every step is compared with an independent RFC 6962 reference (root, count, every proof, refusals). Sampling, not enumeration: a clean batch is evidence, not proof.",
             "Trusted: the ~100-line RFC 6962 reference, SimKV's crash model (atomic loss of un-flushed writes; partial survival only without reset/fork in the window), SHA-256 from the sha2 crate."),
+    "C20": ("pred", "DESIGN.md §6 C20, §4.2",
+            "deterministic simulation: one signed transaction with generator-known truth per input behind a seeded ParallelExecutor / VmMemoryPool / fault-injecting blob store; estimate→verify, sequential-vs-parallel under 8/64 schedules, exact gas ±1, tampering in transit, independent secp256k1 authorization oracle",
+            "Seeded search over transactions (signed and predicate inputs from a 14-production predicate grammar with known truth values), executor schedules (start order × result order × pooled-memory state × Pending polls), blob-store errors, moved block height, declared-gas ±1 and tampered re-decoded copies, all against the real into_checked_basic / check_signatures / check_predicates(_async) / estimate_predicates(_async). Sampling, not enumeration: a clean batch is evidence, not proof.",
+            "Trusted: the generator's truth values (template programs), transaction id computation and secp256k1 recovery (C03/C17 out of scope). 'Estimation Ok implies verification Ok' is asserted only for transactions whose predicates are true by construction (the code and its tests deliberately let estimation succeed on failing predicates). Which failing predicate an error names is not compared."),
 }
 
 PLANNED = {
